@@ -92,8 +92,11 @@ def big_structure(rng, nc):
     lines = [(1, [c]) for c in cands]
     lines += [(rng.randint(1, 3), rng.sample(cands, 3)) for _ in range(5)]
     lines.append((2, [nc, 1, 2]))
-    s = gen.base(nc, rng.randint(1, 3), lines, None, tie=False)
+    s = gen.base(nc, rng.randint(1, 3), lines, rng, tie=rng.random() < 0.6)
     s['names'] = ['c%d' % c for c in cands]
+    if rng.random() < 0.3 and nc <= 1000:
+        s['nick'] = ['n%d' % c for c in cands]
+        s['use_nick'] = True
     s['withdrawn'] = [rng.choice([1, nc])] if rng.random() < 0.5 else []
     return s
 
@@ -159,7 +162,11 @@ def shard(ctx):
             nc = rng.choice([255, 256, 257, 300] + ([65535, 65536] if (not ctx.quick and ctx.shard == 0 and i < 100) else []))
             sb = big_structure(rng, nc)
             ctx.count('big_candidate_counts')
-            judge(ctx, sb, gen.render(sb), {'n=%d' % nc})
+            if sb.get('nick'):
+                fb = set()
+                judge(ctx, sb, blt.render(sb, rng, fb, comments=False), fb | {'n=%d' % nc})
+            else:
+                judge(ctx, sb, gen.render(sb), {'n=%d' % nc} | ({'tie'} if sb.get('tie') else set()))
 
 
 def replay(case):
